@@ -66,22 +66,26 @@ def plan(tier, seed):
                         {'name': 'none_keeps_static', 'cfg': dict(base, entries=[['class', 'v0']])},
                         {'name': 'bool_empty_is_unconfigured',
                          'cfg': dict(base, static=[], entries=[['checked', 'v0']], bools='empty')}])
+    sj = [{'shape': sh} for sh in ([0, 1, 2, 3], ['a 1', 0, 1, 2, 'b 2'], ['a 1;', 0, 1, 2], [0, ';', 1, ';', 2, 'x'],
+                                   ['k string:x', 0, 1, 2, ' j', 3])]
+    famS = dict(name='clause_splitting', module='checks.hC11', fn='split_texts', jobs=sj, timeout=600, vacuity=1,
+                mutants=[{'name': 'split_regex_lookaround', 'cfg': sj[1]}])
     return dict(
         level='translation_validation',
         functions=['chameleon.tal:prepare_attributes', 'chameleon.tal:parse_attributes',
                    'chameleon.zpt.program:MacroProgram._create_attributes_nodes',
                    'chameleon.compiler:Compiler.visit_Attribute', 'chameleon.compiler:Compiler.visit_DictAttributes',
                    'chameleon.compiler:emit_bool', 'chameleon.compiler:emit_func_convert_and_escape',
-                   'chameleon.zpt.template:PageTemplate.parse'],
+                   'chameleon.zpt.template:PageTemplate.parse', 'chameleon.tal:split_parts'],
         bounds=('%d programs: %d static attribute lists (0-3 attributes, mixed case and quoting incl. unquoted, entities in the text) '
                 'x %d tal:attributes lists (named, other-case names, new names, the same name twice in other case among other names, boolean names, attribute dictionary '
                 'first/last with symbolic key presence) x boolean configurations {HTML default, XML/none, explicit '
                 'empty set, explicit set}; every dynamic value ranges over [None, default, "", 0, False, True, hostile '
-                'str]. Outside: ${} inside static attribute text (C06), more than 3 static attributes, ";;" escapes '
+                'str]; what a \';\'-separated argument splits into (tal.split_parts: \';;\' is a literal semicolon, single ones separate, runs of any length) on 5 shapes with 3-4 symbolic code points. Outside: ${} inside static attribute text (C06), more than 3 static attributes, ";;" escapes '
                 '(C11 covers split_parts), the output position of names decided by a dictionary (known divergence, '
                 'not asserted).' % (len(jobs), len(STATICS), len(entry_sets()))),
         assumptions=['expected attribute map computed from the property statement (later sources override earlier '
                      'ones in statement order); start tag read back by an independent scanner',
                      'names are compared case-insensitively; position asserted for static and named entries only'],
-        families=[fam],
+        families=[fam, famS],
     )
